@@ -7,6 +7,10 @@ CHECKS = {
    text="Every day of the supported range is enumerated (finite space, exhaustive: true). Each day is a transition 'next day' of an odometer reference model (month table + 4/100/400 rule) checked in lock-step against PlainDate::try_new, all field/derived getters, compare_iso, add(P1D), until(day) from the epoch; plus per-year facts for all 547,582 years and rejection of the days just outside the range. The thorough tier adds the full battery on every day (N-day add/subtract, since, UTC instant round trip, PlainDateTime/Instant order), local pairs (E, E+k) and all ordered pairs of a ~300-day boundary set.",
    note="Trusted: the R1 odometer as definition of the proleptic Gregorian calendar and ISO-8601 week rule (its closed form is re-validated against the odometer over the whole range on every run). Quick tier runs the inverse/UTC part of the battery on the 10.4M non-trivial days and every 16th day only.",
    ref="3/C01"),
+ "C04": dict(cat="model_checking", tech="bounded exhaustive product sweep + depth-2 operation sequences on the real code, lock-step against a reference model (explicit-state exploration)",
+   text="Full Cartesian products of a boundary alphabet of receiver dates (month ends, leap days, century years, negative years, both range ends) x sign-uniform durations (years to +-547000, months, weeks, days, time parts around 24h/48h) x {add, subtract} x {constrain, reject, absent}; all ordered date pairs of the alphabet and ALL ordered pairs of days of 2019-2022 (plus 1899-1901, 1999-2001 in thorough) x {until, since} x 6 largest-unit settings; depth-2 chains (add then add, add then measure back) so that non-initial states are receivers. Each transition is compared with R2 (AddISODate / DifferenceISODate transcribed from the specification, i64) and with the laws add(until)=end, since=-until, subtract(d)=add(-d), sign-uniform, balanced.",
+   note="Trusted: R2 (validated on every run against the literal linear-search formulation on a 1/7 slice of the dense window and against add(until)=end on every pair). Values outside the alphabets are not covered; ISO calendar only (the crate implements date arithmetic for no other calendar).",
+   ref="3/C04"),
 }
 
 NOT_APPLICABLE = {}
